@@ -28,7 +28,6 @@ package ingress
 // already equal what the class script computes for this step (or, while finalising with weight 0, it is already gone).
 //@ func (*ingressController).EnsureRoutes
 //@ props C14 C03
-//@ requires r != nil && strategy != nil && r.conf.TrafficConf != nil
 //@ ensures verified_means_nothing_written: result0 ==> result1 == nil && #Patch == 0 && #Create == 0 && #Update == 0 && #Delete == 0
 //@ ensures error_means_not_verified: result1 != nil ==> !result0
 //@ ensures stable_ingress_never_written: #Update == 0 && #Delete == 0 && #Patch <= 1 && #Create <= 1
@@ -36,6 +35,5 @@ package ingress
 // Finalise deletes the canary Ingress (and nothing else) and reports "modified" only when it did.
 //@ func (*ingressController).Finalise
 //@ props C14 C05
-//@ requires r != nil
 //@ ensures modified_means_deleted: result0 ==> result1 == nil && #Delete == 1
 //@ ensures only_deletes: #Patch == 0 && #Create == 0 && #Update == 0 && #Delete <= 1
